@@ -9,17 +9,6 @@ Open Scope bool_scope.
 Open Scope string_scope.
 Open Scope N_scope.
 
-(* what C07 demands of a checked outcome, given the plain cast's outcome on the same input and the
-   validity of the elements of the plain view *)
-Definition checked_outcome {V} (plain : outcome (result V perr)) (valid : V -> bool)
-           (o : outcome (result V cerr)) : Prop :=
-  match plain with
-  | Ret (Ok pv) => if valid pv then o = Ret (Ok pv) else o = Ret (Err InvalidBitPattern)
-  | Ret (Err e) => o = Ret (Err (PodCastError e))
-  | Panic w => o = Panic w
-  | UB u => o = UB u
-  end.
-
 Lemma retype_slice (Bits B : ty) pv :
   sz Bits = sz B -> al Bits = al B ->
   addr (sptr pv) mod al Bits = 0 -> avail (sptr pv) = slen pv * sz Bits ->
